@@ -24,13 +24,16 @@ def replay_trajectory(item) -> list[str]:
         if step > 0:
             B.forward_again()
         k = rng.choice([None, 1, 2])
-        if st["mode"] == "backward":
-            backward([B.node(Y), B.node(L1)], Constant(torch.tensor([1.0, -1.0, 1.0], dtype=torch.float64)),
-                     inputs=[B.node(A), B.node(Bb), B.node(T1)], parallel_chunk_size=k)
-        else:
-            mtl_backward([B.node(L1), B.node(L2)], B.node(F), Constant(torch.tensor([1.0, -1.0], dtype=torch.float64)),
-                         tasks_params=[[B.node(T1)], [B.node(T2)]], shared_params=[B.node(A), B.node(Bb)],
-                         parallel_chunk_size=k)
+        try:
+            if st["mode"] == "backward":
+                backward([B.node(Y), B.node(L1)], Constant(torch.tensor([1.0, -1.0, 1.0], dtype=torch.float64)),
+                         inputs=[B.node(A), B.node(Bb), B.node(T1)], parallel_chunk_size=k)
+            else:
+                mtl_backward([B.node(L1), B.node(L2)], B.node(F), Constant(torch.tensor([1.0, -1.0], dtype=torch.float64)),
+                             tasks_params=[[B.node(T1)], [B.node(T2)]], shared_params=[B.node(A), B.node(Bb)],
+                             parallel_chunk_size=k)
+        except Exception as e:                              # noqa: BLE001  (the code under test: a verdict)
+            return [f"iteration {step + 1} ({st['mode']}, parallel_chunk_size={k}) raised {type(e).__name__}: {str(e)[:160]}"]
         eg, ep = fmap(st["grads"]), fmap(st["params"])
         for l in PARAMS:
             g = B.grad_flat(l)
